@@ -244,43 +244,55 @@ def enc_follow(full, depth):
 def diff_paths(a, b):
     return sorted(k for k in set(a) | set(b) if a.get(k) != b.get(k))
 
-def oracle(prev, cur, pats):
+def oracle(prev, cur, pats, produced=()):
     """prev/cur: (lsnap, rsnap). Returns (must_T, must_S, classification hints). True: must run again, False: must not,
-    None: the property does not say (only something outside the tree, reached through a link, or the root itself, changed)."""
-    L0, R0 = visible(prev[0], pats), visible(prev[1], pats)
-    L1, R1 = visible(cur[0], pats), visible(cur[1], pats)
+    None: the property does not say (only something outside the tree, reached through a link, or the root itself, changed).
+    produced: relative paths of directories that are OUTPUTS of mkdir commands of the description: their own stat record
+    is the producing command's business (its result stays valid while the directory exists), so only their type counts."""
+    L0r, R0r = visible(prev[0], pats), visible(prev[1], pats)
+    L1r, R1r = visible(cur[0], pats), visible(cur[1], pats)
+    def norm(S):
+        return {k: ((v[0],) if (k in produced and v != "missing" and v[0] == "d") else v) for k, v in S.items()}
+    L0, L1, R0, R1 = norm(L0r), norm(L1r), norm(R0r), norm(R1r)
     D = [k for k in diff_paths(L0, L1) if k != ""]
     same_all = (L0 == L1 and R0 == R1)
     must_T = True if D else (False if same_all else None)
     sh = lambda s: {k: (v[0] if v != "missing" else "missing") for k, v in s.items()}
-    SD = diff_paths(sh(L0), sh(L1))
-    must_S = True if SD else (False if sh(R0) == sh(R1) else None)
+    shR0, shR1 = sh(R0r), sh(R1r)
+    # an entry that was itself edited (its lstat record differs) and resolves to another type now: a retargeted link
+    SDR = [k for k in diff_paths(L0r, L1r) if k in L0r and k in L1r and shR0.get(k) != shR1.get(k)]
+    SD = sorted(set(diff_paths(sh(L0r), sh(L1r))) | set(SDR))
+    must_S = True if SD else (False if shR0 == shR1 else None)
     hints = dict(changed=D, shape_changed=SD)
     # classification of the changed paths (for the finding key of a missed change): which known finding, if any,
     # explains that this path's change is not seen
     def only_mode(k):
-        a, b = L0.get(k), L1.get(k)
+        a, b = L0r.get(k), L1r.get(k)
         return a is not None and b is not None and a[:3] + a[4:] == b[:3] + b[4:] and a[3] != b[3]
     def involves_link(k):
         # the object stays, but it is (or becomes) a symbolic link: retype link <-> file, re-spelled target, touched link
-        a, b = L0.get(k), L1.get(k)
+        a, b = L0r.get(k), L1r.get(k)
         return a is not None and b is not None and (a[0] == "l" or b[0] == "l")
     def parent_of(k):
         return k.rsplit("/", 1)[0] if "/" in k else ""
     def parent_unchanged(k):
         par = parent_of(k)
-        return par in L0 and L0.get(par) == L1.get(par)
+        return par in L0r and L0r.get(par) == L1r.get(par)
     def gone_unseen(k):
         # removed while its directory's record stayed the same, and it did not resolve before either: a stored
         # filtered listing still has the name and its node is MissingInput before and after
-        return bool(pats) and k in L0 and k not in L1 and parent_unchanged(k) and prev[1].get(k) == "missing"
-    hints["cat"] = {k: ("mode" if only_mode(k) else "link" if involves_link(k) else "stale" if gone_unseen(k) else None) for k in set(D) | set(SD)}
-    hints["file_root"] = L0.get("", ("?",))[0] != "d" and L1.get("", ("?",))[0] != "d" and "" in L0 and "" in L1
+        return bool(pats) and k in L0r and k not in L1r and parent_unchanged(k) and prev[1].get(k) == "missing"
+    # "seen through" (known finding D4) explains a path only when what the link RESOLVES to did not change
+    hints["cat_T"] = {k: ("mode" if only_mode(k) else "link" if (involves_link(k) and R0r.get(k) == R1r.get(k)) else "stale" if gone_unseen(k) else None) for k in D}
+    hints["cat_S"] = {k: ("link" if (involves_link(k) and shR0.get(k) == shR1.get(k)) else "stale" if gone_unseen(k) else None) for k in SD}
+    hints["file_root"] = L0r.get("", ("?",))[0] != "d" and L1r.get("", ("?",))[0] != "d" and "" in L0r and "" in L1r
     # entries that appeared while the record of their directory stayed the same: a stored filtered listing does not have them
-    hints["added_unseen"] = [k for k in D if k not in L0 and parent_unchanged(k)] if pats else []
-    hints["removed"] = [k for k in D if k not in L1]
-    hints["removed_parent_unchanged"] = [k for k in D if k not in L1 and parent_of(k) in L1 and parent_unchanged(k)]
-    hints["root_changed"] = L0.get("") != L1.get("")
+    Draw = [k for k in diff_paths(L0r, L1r) if k != ""]
+    hints["added_unseen"] = [k for k in Draw if k not in L0r and parent_unchanged(k)] if pats else []
+    hints["removed"] = [k for k in Draw if k not in L1r]
+    hints["removed_parent_unchanged"] = [k for k in Draw if k not in L1r and parent_of(k) in L1r and parent_unchanged(k)]
+    hints["relisted_dirs"] = [k for k in Draw if k in L0r and k in L1r]
+    hints["root_changed"] = L0r.get("") != L1r.get("")
     dangling_dirs = set()
     for R in (prev[1], cur[1]):
         for q, v in R.items():
@@ -400,6 +412,10 @@ def gen_edit(rng, sb, family, pats):
     if not objs:
         spec = gen_spec(rng, 1, 2, 2, [])
         return dict(op="add", path=sb.root, spec=spec), "recreate-root"
+    prot = getattr(sb, "protected", set())
+    def movable(o):
+        # outputs of mkdir commands (and what contains them) are not removed, renamed or retyped by the edits
+        return not any(q == o[0] or q.startswith(o[0] + "/") for q in prot)
     inner = [o for o in objs if o[2] > 0]
     files = [o for o in inner if o[1] == "f"]
     dirs = [o for o in objs if o[1] == "d"]
@@ -407,11 +423,12 @@ def gen_edit(rng, sb, family, pats):
     vis = lambda l: [o for o in l if not o[3]]
     exc = lambda l: [o for o in l if o[3]]
     t = sb.tick()
-    kinds = ["content", "content-same-size", "touch", "touch-1ns", "add-file", "add-dir", "rm", "mv", "retype", "retype-fifo", "replace-inode", "add-link", "touch-dir"]
+    kinds = ["content", "content-same-size", "touch", "touch-1ns", "add-file", "add-dir", "rm", "mv", "retype", "retype-fifo", "replace-inode", "add-link", "touch-dir",
+             "add-sibling-link", "retarget-sibling-link"]
     if pats:
         kinds += ["excluded-content", "excluded-add-keep", "excluded-add", "excluded-rm-keep"] * 2
     else:
-        kinds += ["add-file-keep", "rm-keep", "mv-keep"]      # without patterns the listing is compared on every build
+        kinds += ["add-file-keep", "rm-keep", "mv-keep", "add-sibling-link-keep", "retarget-sibling-link-keep"]      # without patterns the listing is compared on every build
     if family == "mode":
         kinds = ["chmod", "chmod", "chmod-dir", "touch", "content"]
     elif family == "stale":
@@ -435,6 +452,36 @@ def gen_edit(rng, sb, family, pats):
         o = pick(rng, vis(files) + vis(links))
         if not o: return None
         return dict(op="touch", path=o[0], t=(sb.mtime(o[0]) + 1) if kind == "touch-1ns" else t), kind
+    if kind.startswith("add-sibling-link"):
+        # a link to an entry of the same directory ("current -> v1"), at the root or deeper
+        cands = []
+        for d in vis(dirs):
+            ents = [n for n in os.listdir(sb.p(d[0])) if not os.path.islink(sb.p(os.path.join(d[0], n)))]
+            if ents:
+                cands.append((d, ents))
+        if not cands: return None
+        d, ents = rng.choice(cands)
+        name = fresh_name(rng, sb, d[0], [n for n in ["current", "latest", "cur.lnk"] + FILE_NAMES if not is_excluded(n, pats)])
+        if not name: return None
+        op = dict(op="add", path=os.path.join(d[0], name), spec=dict(k="l", to=rng.choice(ents)))
+        op.update(dict(dir="keep") if kind.endswith("keep") else dict(dir_t=sb.tick()))
+        return op, kind
+    if kind.startswith("retarget-sibling-link"):
+        cands = []
+        for o in vis(links):
+            cur = os.readlink(sb.p(o[0]))
+            if "/" in cur: continue
+            d = os.path.dirname(o[0])
+            curdir = os.path.isdir(sb.p(o[0]))
+            others = [n for n in os.listdir(sb.p(d)) if n != cur and n != os.path.basename(o[0]) and not os.path.islink(sb.p(os.path.join(d, n)))
+                      and os.path.isdir(sb.p(os.path.join(d, n))) != curdir]
+            if others:
+                cands.append((o, others))
+        if not cands: return None
+        o, others = rng.choice(cands)
+        op = dict(op="relink", path=o[0], to=rng.choice(others), t=t)
+        op.update(dict(dir="keep") if kind.endswith("keep") else dict(dir_t=sb.tick()))
+        return op, kind
     if kind == "touch-dir":
         o = pick(rng, vis([d for d in dirs if d[2] > 0]))
         if not o: return None
@@ -467,13 +514,13 @@ def gen_edit(rng, sb, family, pats):
         op.update(dict(dir="keep") if kind.endswith("keep") else dict(dir_t=sb.tick()))
         return op, kind
     if kind in ("rm", "rm-keep", "excluded-rm-keep"):
-        o = pick(rng, exc(inner) if kind.startswith("excluded") else vis(inner))
+        o = pick(rng, [x for x in (exc(inner) if kind.startswith("excluded") else vis(inner)) if movable(x)])
         if not o: return None
         op = dict(op="rm", path=o[0])
         op.update(dict(dir="keep") if kind.endswith("keep") else dict(dir_t=sb.tick()))
         return op, kind
     if kind in ("mv", "mv-keep"):
-        o = pick(rng, vis(inner))
+        o = pick(rng, [x for x in vis(inner) if movable(x)])
         if not o: return None
         cand = [d for d in vis(dirs) if not (d[0] + "/").startswith(o[0] + "/")]
         d = pick(rng, cand) if rng.random() < 0.4 else None
@@ -483,8 +530,10 @@ def gen_edit(rng, sb, family, pats):
         op = dict(op="mv", path=o[0], dst=os.path.join(dst_dir, name))
         op.update(dict(dir="keep") if kind.endswith("keep") else dict(dir_t=sb.tick()))
         return op, kind
+    if kind in ("rm-root", "retype-root") and prot:
+        return None
     if kind == "retype":
-        o = pick(rng, vis(inner))
+        o = pick(rng, [x for x in vis(inner) if movable(x)])
         if not o: return None
         if o[1] == "d":
             spec = dict(k="f", data="was a directory")
@@ -550,14 +599,20 @@ def counts(S):
             return 0
     return n("count.T"), n("count.S")
 
-def write_build(sb, pats, absolute, tsp="slash", ssp="is-directory-structure"):
+def write_build(sb, pats, absolute, tsp="slash", ssp="is-directory-structure", produced=()):
     pre = (sb.S + "/") if absolute else ""
     tsuf, tlines = T_SPELLINGS[tsp]
     ssuf, slines = S_SPELLINGS[ssp]
     tnode, snode = pre + sb.root + tsuf, pre + "./" + sb.root + ssuf
     pl = ["content-exclusion-patterns: [%s]" % ", ".join(yq(p) for p in pats)] if pats else []
     fmt = lambda lines: ("".join("\n    " + l for l in lines)) if lines else " {}"
-    open(os.path.join(sb.S, "build.llbuild"), "w").write(BUILD % dict(t=tnode, s=snode, tattr=fmt(tlines + pl), sattr=fmt(slines + pl)))
+    text = BUILD % dict(t=tnode, s=snode, tattr=fmt(tlines + pl), sattr=fmt(slines + pl))
+    # directories that are outputs of mkdir-tool commands of this description (one command per spelling of the path,
+    # because the two nodes reach the directory as tree/... and ./tree/...)
+    for j, rel in enumerate(produced):
+        for tag, base in (("t", pre + sb.root), ("s", pre + "./" + sb.root)):
+            text += "  C.mkdir.%d%s:\n    tool: mkdir\n    outputs: [%s]\n" % (j, tag, yq(base + ("/" + rel if rel else "")))
+    open(os.path.join(sb.S, "build.llbuild"), "w").write(text)
     return tnode.rstrip("/"), snode.rstrip("/")
 
 def build(llb, sb):
@@ -581,7 +636,9 @@ def run_scenario(chk, llb, model, sc, idx, generate=None):
         sb.materialise(name, sc["siblings"][name])
     if sc["init"] is not None:
         sb.materialise(sb.root, sc["init"])
-    pT, pS = write_build(sb, pats, sc.get("absolute", False), sc.get("tspell", "slash"), sc.get("sspell", "is-directory-structure"))
+    produced = list(sc.get("produced", []))
+    sb.protected = set(os.path.join(sb.root, r) if r else sb.root for r in produced)
+    pT, pS = write_build(sb, pats, sc.get("absolute", False), sc.get("tspell", "slash"), sc.get("sspell", "is-directory-structure"), produced)
     records = []
     encs = []
     nsteps = sc.get("nsteps", len(sc["steps"]))
@@ -600,12 +657,19 @@ def run_scenario(chk, llb, model, sc, idx, generate=None):
         encs.append(enc)
         rec = dict(step=k, labels=(sc["steps"][k - 1]["labels"] if k > 0 else ["initial build"]), rc=rc, ranT=ranT, ranS=ranS, log=log if rc != 0 else "")
         if k > 0:
-            rec["must_T"], rec["must_S"], rec["hints"] = oracle(prev, snaps, pats)
+            rec["must_T"], rec["must_S"], rec["hints"] = oracle(prev, snaps, pats, set(produced))
         records.append(rec)
-        prev = snaps
+        # the baseline of the next step is what is on disk AFTER this build (mkdir commands may have created directories)
+        prev = observe_disk(sb)[0] if produced else snaps
         k += 1
         if generate is not None and k > nsteps:
             break
+    sc["_sandbox"] = sb.S
+    if produced:
+        # the Coq model covers INPUT directories (FileInputNodeTask); produced directories are judged by the oracle only
+        for rec in records[1:]:
+            rec["model_T"] = rec["model_S"] = None
+        return records
     fl = "." if not pats else ",".join(hx(p.encode()) for p in pats)
     reqs = ["scenario %s %s %s" % (fl, hx(p.encode()), " ".join(encs)) for p in (pT, pS)]
     rc, out, err = vlib.run_lines(model, reqs, timeout=300)
@@ -644,7 +708,7 @@ def judge(chk, sc, records, idx):
             return any(parts[j] in table.get("/".join(parts[:j]), ()) for j in range(len(parts)))
         before = {d: set(v) for d, v in unseen.items()}
         # the directory's own record changed: it is listed again; what the stored listing had wrong comes to light now
-        redone = list(h["changed"]) + ([""] if h["root_changed"] else [])
+        redone = list(h["relisted_dirs"]) + ([""] if h["root_changed"] else [])
         relisted = [k for k in redone if unseen.get(k) or ghosts.get(k)]
         for k in redone:
             unseen.pop(k, None)
@@ -655,7 +719,8 @@ def judge(chk, sc, records, idx):
         def stale(k):
             # an entry that was never in the stored listing: changes beneath it, and its removal, cannot be seen
             return stale_in(before if k in h["removed"] else unseen, k)
-        cats = {k: (c or ("stale" if (sc["pats"] and stale(k)) else None)) for k, c in h["cat"].items()}
+        up = lambda table: {k: (c or ("stale" if (sc["pats"] and stale(k)) else None)) for k, c in table.items()}
+        cats = dict(tree=up(h["cat_T"]), structure=up(h["cat_S"]))
         rec["cats"] = cats
         for k in h["removed"]:
             par, name = split(k)
@@ -668,7 +733,7 @@ def judge(chk, sc, records, idx):
             unlisted |= chk.violation("build-failed", "llbuild exited with %d during an incremental build" % rec["rc"], rp(rec), found_input=True, broken="c12 oracle")
         for cmd, ran, must in (("tree", rec["ranT"], rec["must_T"]), ("structure", rec["ranS"], rec["must_S"])):
             if must is True and not ran:
-                key_ = missed_key(cmd, rec["hints"], cats)
+                key_ = missed_key(cmd, rec["hints"], cats[cmd])
                 what = "the command with the directory-%s input did not run again after: %s (changed: %s)" % (cmd, "; ".join(rec["labels"]), ", ".join((rec["hints"]["changed"] if cmd == "tree" else rec["hints"]["shape_changed"])[:4]))
                 unlisted |= chk.violation(key_, what, rp(rec, dict(command=cmd)), found_input=True, broken="c12 oracle (detects) on llbuild buildsystem build")
             elif must is False and ran:
@@ -680,7 +745,9 @@ def judge(chk, sc, records, idx):
                 what = ("the command with the directory-%s input ran again although " % cmd) + ("nothing beneath the directory changed" if cmd == "tree" else "no entry was added, removed or changed type") + " (%s)" % "; ".join(rec["labels"])
                 unlisted |= chk.violation(key_, what, rp(rec, dict(command=cmd)), found_input=True, broken="c12 oracle (stable) on llbuild buildsystem build")
         tie_ok = (rec["model_T"] == rec["ranT"]) and (rec["model_S"] == rec["ranS"])
-        if tie_ok:
+        if rec["model_T"] is None:
+            pass
+        elif tie_ok:
             agreed += 1
         elif not unlisted:
             chk.violation("correspondence-%s" % ("tree" if rec["model_T"] != rec["ranT"] else "structure"),
@@ -752,6 +819,35 @@ def corpus():
         dict(labels=["excluded-content (zz)"], ops=[dict(op="write", path="tree/zz", data="zzz", t=T0 + 936 * STEP_NS)]),
         dict(labels=["content (skipx is visible)"], ops=[dict(op="write", path="tree/sub/skipx", data="vv", t=T0 + 937 * STEP_NS)]),
         dict(labels=["excluded-add (skip7)"], ops=[dict(op="add", path="tree/sub/skip7", spec=f(), dir_t=T0 + 938 * STEP_NS)])]))
+    # seeded C12-5: the watched directory (and a sub-directory) are OUTPUTS of mkdir commands of the description
+    for pats_ in (["*.tmp"], []):
+        tag = "-filtered" if pats_ else ""
+        out.append(dict(name="mkdir-produced-root" + tag, family="produced", pats=pats_, init=None, produced=[""], steps=[
+            dict(labels=["nothing"], ops=[]),
+            dict(labels=["excluded-add"], ops=[dict(op="add", path="tree/scratch.tmp", spec=f("x"), dir_t=T0 + 940 * STEP_NS)]),
+            dict(labels=["add-file"], ops=[dict(op="add", path="tree/a.txt", spec=f("hello"), dir_t=T0 + 941 * STEP_NS)]),
+            dict(labels=["nothing"], ops=[]),
+            dict(labels=["content"], ops=[dict(op="write", path="tree/a.txt", data="hello2", t=T0 + 942 * STEP_NS)]),
+            dict(labels=["rm"], ops=[dict(op="rm", path="tree/a.txt", dir_t=T0 + 943 * STEP_NS)])]))
+        out.append(dict(name="mkdir-produced-subdirs" + tag, family="produced", pats=pats_, produced=["", "gen", "gen/deep"],
+                        init=d(("a", f()), ("gen", d(("deep", d(("k", f("1")))), ("m.c", f("m"))))), steps=[
+            dict(labels=["add-file (in a produced sub-directory)"], ops=[dict(op="add", path="tree/gen/deep/new", spec=f("n"), dir_t=T0 + 944 * STEP_NS)]),
+            dict(labels=["content (in a produced sub-directory)"], ops=[dict(op="write", path="tree/gen/deep/k", data="22", t=T0 + 945 * STEP_NS)]),
+            dict(labels=["file-to-fifo (in a produced sub-directory)"], ops=[dict(op="retype", path="tree/gen/m.c", spec=dict(k="p"), dir_t=T0 + 946 * STEP_NS)]),
+            dict(labels=["rm (in a produced sub-directory)"], ops=[dict(op="rm", path="tree/gen/deep/new", dir_t=T0 + 947 * STEP_NS)]),
+            dict(labels=["nothing"], ops=[])]))
+    # seeded C12-6: links to an entry of the same directory (framework-style "current -> v1"), at the root and deeper
+    for pats_ in ([], ["*.tmp"]):
+        tag = "-filtered" if pats_ else ""
+        out.append(dict(name="sibling-links" + tag, family="core", pats=pats_,
+                        init=d(("v1", d(("lib", f("1")))), ("README", f("r")), ("pkg", d(("v1", d(("lib", f("1")))), ("v2", d(("lib", f("2")))), ("README", f("r"))))), steps=[
+            dict(labels=["add-sibling-link (pkg/current -> v1)"], ops=[dict(op="add", path="tree/pkg/current", spec=dict(k="l", to="v1"), dir="keep" if not pats_ else None, dir_t=T0 + 950 * STEP_NS)]),
+            dict(labels=["retarget-sibling-link (directory -> file)"], ops=[dict(op="relink", path="tree/pkg/current", to="README", t=T0 + 951 * STEP_NS, dir="keep")]),
+            dict(labels=["retarget-sibling-link (file -> directory)"], ops=[dict(op="relink", path="tree/pkg/current", to="v2", t=T0 + 952 * STEP_NS, dir="keep")]),
+            dict(labels=["rm (the sibling link)"], ops=[dict(op="rm", path="tree/pkg/current", dir="keep" if not pats_ else None, dir_t=T0 + 953 * STEP_NS)]),
+            dict(labels=["add-sibling-link (current -> v1 at the root)"], ops=[dict(op="add", path="tree/current", spec=dict(k="l", to="v1"), dir_t=T0 + 954 * STEP_NS)]),
+            dict(labels=["retarget-sibling-link (root: directory -> file)"], ops=[dict(op="relink", path="tree/current", to="README", t=T0 + 955 * STEP_NS, dir_t=T0 + 956 * STEP_NS)]),
+            dict(labels=["rm (the sibling link at the root)"], ops=[dict(op="rm", path="tree/current", dir_t=T0 + 957 * STEP_NS)])]))
     # D1 (known): chmod only
     out.append(dict(name="chmod-only", family="mode", pats=[], init=d(("a.txt", f()), ("sub", d(("b", f())))), steps=[
         dict(labels=["chmod"], ops=[dict(op="chmod", path="tree/sub/b", mode=0o600)]),
@@ -819,6 +915,14 @@ def gen_scenario(rng, family, pats, idx):
     sc = dict(family=family, pats=pats, steps=[], nsteps=rng.randint(2, 4) + 1,
               siblings=dict(outside=dict(k="d", mode=0o755, c=[["of", dict(k="f", data="outside")], ["od", dict(k="d", mode=0o755, c=[["o2", dict(k="f", data="o")]])]])))
     sc["init"] = gen_spec(rng, 1, maxdepth, 3, ["../outside/of", "../../outside/od", "nowhere", "a", "b.txt"])
+    if family == "produced":
+        # the root and up to two existing sub-directories are outputs of mkdir commands
+        subs = []
+        for n1, c1 in sc["init"]["c"]:
+            if c1["k"] == "d":
+                subs.append(n1)
+                subs += [n1 + "/" + n2 for n2, c2 in c1.get("c", []) if c2["k"] == "d"][:1]
+        sc["produced"] = [""] + rng.sample(subs, min(len(subs), 2))
     sc["tspell"] = rng.choice(["slash", "slash", "type", "is-directory"])
     sc["sspell"] = rng.choice(["is-directory-structure", "type"])
     if family == "symlink":
@@ -834,7 +938,7 @@ def make_generator(rng, family, pats):
         fam = family
         for _ in range(n):
             for attempt in range(6):
-                f = fam if (fam in ("core",) or rng.random() < 0.75) else "core"
+                f = "core" if fam == "produced" else (fam if (fam in ("core",) or rng.random() < 0.75) else "core")
                 e = gen_edit(rng, sb, f, pats)
                 if e is not None:
                     break
@@ -867,8 +971,8 @@ def run(chk):
     plan = []
     n = chk.n(60, 900)
     for i in range(n):
-        r = i % 10
-        family = "core" if r < 6 else ("mode", "stale", "symlink", "root")[r - 6]
+        r = i % 12
+        family = "core" if r < 6 else ("mode", "stale", "symlink", "root", "produced", "produced")[r - 6]
         pats = rng.choice(PATTERN_SETS) if (family == "stale" or (family != "symlink" and rng.random() < 0.45)) else []
         plan.append((family, pats))
     for family, pats in plan:
